@@ -813,6 +813,13 @@ def _validated_property_cfgs():
 _validated_property_cfgs()
 
 
+def safe(pred, s):
+    try:
+        return bool(pred(s))
+    except Exception:
+        return False
+
+
 # legacy mapped compounds: a mapping alternative next to a container type;
 # values the mapping cannot even hash are the container alternative's
 LMAP = {"yes": 1, "no": 0}
@@ -856,6 +863,46 @@ def _legacy_cfgs():
 _legacy_cfgs()
 
 
+# legacy handler classes behind Trait(...): each carries its own fast-validation
+# descriptor and its own Python validate
+def _legacy_handler_cfgs():
+    from traits.api import Trait, TraitCastType
+
+    def inst(*tps):
+        return lambda s: isinstance(s, tps)
+    cfg("Trait(0.0,float)", lambda: Trait(0.0, float), inst(float), None,
+        "f1.5", kind="LegacyCoerce")
+    cfg("Trait(0,int)", lambda: Trait(0, int), inst(int), None, "i1",
+        kind="LegacyCoerce")
+    cfg("Trait(0j,complex)", lambda: Trait(0j, complex), inst(complex), None,
+        "c1j", kind="LegacyCoerce")
+    cfg("Trait('',str)", lambda: Trait("", str), inst(str), None, "sa",
+        kind="LegacyCoerce")
+    cfg("Trait(0.0)", lambda: Trait(0.0), inst(float), None, "f1.5",
+        kind="LegacyCast")
+    cfg("Trait(0,TraitCastType(int))", lambda: Trait(0, TraitCastType(int)),
+        inst(int), None, "i1", kind="LegacyCast")
+    cfg("Trait(0.0,TraitCastType(float))",
+        lambda: Trait(0.0, TraitCastType(float)), inst(float), None, "f1.5",
+        kind="LegacyCast")
+    cfg("Trait(None,A)", lambda: Trait(None, A),
+        lambda s: s is None or isinstance(s, A), None, "A0",
+        kind="LegacyInstance")
+    cfg("Trait(1,2,3)", lambda: Trait(1, 2, 3),
+        lambda s: safe(lambda x: x in (1, 2, 3), s), None, "i1",
+        kind="LegacyEnum", skip=ARRAYS)
+    cfg("Trait(0.0,float,str)", lambda: Trait(0.0, float, str),
+        inst(float, str), None, "f1.5", kind="LegacyCompound")
+    cfg("Trait(0,int,complex)", lambda: Trait(0, int, complex),
+        inst(int, complex), None, "i1", kind="LegacyCompound")
+    cfg("Trait(None,A,float)", lambda: Trait(None, A, float),
+        lambda s: s is None or isinstance(s, (A, float)), None, "A0",
+        kind="LegacyCompound")
+
+
+_legacy_handler_cfgs()
+
+
 # compounds ---------------------------------------------------------------------
 MEMBERS = [
     "Int", "Float", "Complex", "Str", "Bytes", "Bool", "CInt", "CFloat",
@@ -873,11 +920,6 @@ MEMBERS = [
 COMPOUND_MEMBERS = {}     # compound config name -> member config names
 
 
-def safe(pred, s):
-    try:
-        return bool(pred(s))
-    except Exception:
-        return False
 
 
 def union_cfgs():
